@@ -30,7 +30,9 @@ FLOORS = {"quick": {"verdict:accept": 20000, "verdict:reject:missing": 3000, "ve
           "thorough": {"verdict:accept": 200000}}
 EXHAUSTIVE = {"quick": False, "thorough": False}
 
-NAMES = ["iss", "sub", "aud", "exp", "nbf", "iat", "jti", "role", "x"]
+NAMES = ["iss", "sub", "aud", "exp", "nbf", "iat", "jti", "role", "x",
+         # private claim names that happen to be words the implementation uses itself (validate_<name> dispatch, attributes, options)
+         "time", "value", "values", "essential", "now", "leeway", "claims", "options", "aud2", "numeric_time", "registry"]
 POOL = ["", "a", "ab", "abc", "https://api.example.com", "https://api.example.com.evil.org", "svc-a", "svc-a2", "é", "admin"]
 strv = st.sampled_from(POOL)
 scalar = st.one_of(st.none(), st.booleans(), st.integers(-3, 3), st.sampled_from([0.5, 1.0, 2.5]), strv, strv)
@@ -55,11 +57,24 @@ aud_option = st.one_of(st.fixed_dictionaries({"value": strv.filter(bool)}, optio
                        st.fixed_dictionaries({"values": st.lists(strv, min_size=1, max_size=3)}, optional={"essential": st.booleans()}))
 
 
+_ALL_NAMES = []
+
+
+def all_names():
+    """NAMES plus every <x> for which the registry class of the tree under test has a method validate_<x> / check_<x>: a private claim
+    of that name must be treated like any other claim."""
+    if not _ALL_NAMES:
+        from joserfc import jwt
+        extra = sorted({a.split("_", 1)[1] for a in dir(jwt.JWTClaimsRegistry) if a.startswith(("validate_", "check_")) and "_" in a})
+        _ALL_NAMES.extend(NAMES + [e for e in extra if e not in NAMES])
+    return _ALL_NAMES
+
+
 @st.composite
 def cases(draw):
     now = draw(st.one_of(st.integers(0, 2 * 10**9), st.just(1700000000)))
     leeway = draw(st.sampled_from([0, 0, 1, 60, 3600, 17]))
-    names = draw(st.lists(st.sampled_from(NAMES), unique=True, min_size=0, max_size=6))
+    names = draw(st.lists(st.sampled_from(all_names()), unique=True, min_size=0, max_size=6))
     claims = {}
     tv = {}
     for n in names:
@@ -73,7 +88,7 @@ def cases(draw):
             claims[n] = draw(st.one_of(strv, strv, st.lists(strv, max_size=3), anyv))
         else:
             claims[n] = draw(anyv)
-    onames = draw(st.lists(st.sampled_from(NAMES), unique=True, min_size=0, max_size=5))
+    onames = draw(st.lists(st.sampled_from([n for n in all_names() if n not in ("now", "leeway")]), unique=True, min_size=0, max_size=5))
     options = {n: draw(option) for n in onames}
     if "aud" in claims and draw(st.booleans()):
         options["aud"] = draw(aud_option)
